@@ -8,11 +8,11 @@ import types
 from fractions import Fraction
 
 from harness import core, fr
-from harness.core import gq, gz, gnat, gbool, glist
+from harness.core import gq, gz, gnat, gbool, glist, gstr
 
 HEADER = """From Coq Require Import ZArith List Bool String.
 From FrameModel Require Import Num.QcTac PB.Expr PB.Cnf PB.Amo PB.Robdd PB.Codify PB.Sat
-  RectSearch.Coords RectSearch.Names RectSearch.Encode RectSearch.Shapes Cases.CmpC08.
+  RectSearch.Coords RectSearch.Names RectSearch.Encode RectSearch.Shapes RectSearch.SelectBox Cases.CmpC08.
 Import ListNotations.
 Local Open Scope nat_scope."""
 
@@ -26,11 +26,30 @@ ASSUMPTIONS = [
     "variable names: the implementation's strings are mapped onto the model's structured variables "
     "('b2_x_3.5' -> VxL 2 (position of 3.5 in carrier.xcoords), 'aux_n' -> Aux n, 'robdd_n' -> Node n); the harness "
     "checks on every case that the mapping is one-to-one on the names that occur",
-    "minimum-error mode only (ratio >= 1; the tool's --minarea mode is not modelled); Expr.__rmul__ uses int(ratio); "
-    "the cost of a shape is sum over its cells of int(ratio)*int(factor*p*w*h) - int(factor*w*h) as in rect.area",
-    "ratio > 1 and a positive theoretical best area (otherwise solve divides by zero when it computes the quality "
-    "it prints) - the generator keeps to that",
-    "coordinates and occupancies are dyadic so that every product the code forms is exact in binary64",
+    "minimum-error mode = the 'Min error approach' branch of solve (ratio >= 1: --minerr f = 2 (default), --maxdiff "
+    "f = 3, --sf d >= 1); the other branch (ratio < 1, 'Min area approach': --minarea f = 0.89, --sf d < 1) posts two "
+    "different inequalities and returns a different pair; the property quantifies over the cost bounds of the "
+    "minimum-error mode only, so that branch is outside it (the model returns None there and the generator never "
+    "produces ratio < 1); the shape part of the formula (C08_shapes_exact) is the same in both branches",
+    "Expr.__rmul__ uses int(ratio); the cost of a shape is sum over its cells of "
+    "int(ratio)*int(factor*p*w*h) - int(factor*w*h) as in rect.area",
+    "carrier.theoreticalBestArea is set as main does (sum of area(b, True)); it is 0 when the module is absent "
+    "from every cell or every occupied area truncates to 0 - admissible inputs (4% all-zero occupancies, the "
+    "'tiny' axis style, ratio = 1 in 5% of the cases): solve must still return its shape "
+    "(fixes/C08-quality-zero-division.diff; the unrepaired code raised ZeroDivisionError after solving)",
+    "occupancy values are not restricted to [0, 1]: 0, quarters up to 1, 5/4 and 2 are generated",
+    "coordinates and occupancies are dyadic so that every product the code forms is exact in binary64 (all cases "
+    "compared with the model); decimal coordinates occur only in the allocation path and are judged by the direct "
+    "oracle alone (shape set, returned rectangles = boxes; the cost bound is then trivially met because the code's "
+    "binary64 area products may truncate differently from exact arithmetic)",
+    "allocation path (every 8th case): the grid is written as an allocation text ([xc, yc, w, h] exact decimal "
+    "literals + {module: ratio}), read by the real frame Allocation through rect_io.get_alloc, and select_box('M') "
+    "produces the input of the search; an Allocation lives in the positive quadrant, keeps ratios in [0, 1] and "
+    "divides by the total area of every listed module (so a listed module has a positive ratio somewhere) - the "
+    "generator keeps to that; Rectangle's process-wide epsilon is undefined before and after",
+    "select_box's snapping tolerance is 1e-9 x the largest coordinate magnitude (binary64 product in the code, exact "
+    "rational in the model): generated grid lines are at least 1/100 apart with magnitudes below 2^10, so no "
+    "comparison is near the threshold",
     "PySAT is trusted as sound and complete (Section variable sat_o in the theorems)",
     "the process-wide diagram store is reset to [0, 1] before a case and then filled by the case's own earlier "
     "solve (history); the store found at the start of the observed solve is the model's initial store",
@@ -59,6 +78,11 @@ def gen_axis(rng, n, style):
         if xs[-1].denominator == 1:
             xs[-1] += Fraction(1, 2)
         return xs
+    if style == "tiny":      # cells so small that int(factor * w * h) can be 0
+        xs = [rng.choice([Fraction(0), Fraction(1, 2), Fraction(-1, 4)])]
+        for _ in range(n):
+            xs.append(xs[-1] + Fraction(rng.choice([1, 1, 2, 3]), rng.choice([8, 16])))
+        return xs
     # shifted origin (positive, negative - so that 0 may be an inner line - or fractional)
     o = rng.choice([Fraction(1), Fraction(-1), Fraction(-2), Fraction(3), Fraction(1, 2), Fraction(-3, 4), Fraction(5, 4)])
     xs = [o]
@@ -68,9 +92,22 @@ def gen_axis(rng, n, style):
     return xs
 
 
-STYLES = ["unit0", "int0", "frac0", "shift-int", "shift-frac"]
-SIZES = [(1, 1), (2, 1), (1, 2), (3, 1), (1, 3), (2, 2), (3, 2), (2, 3), (3, 3), (3, 3), (4, 1), (4, 2), (2, 4),
-         (4, 3), (3, 4), (4, 4), (5, 2), (2, 5), (5, 3), (3, 5), (5, 4), (4, 5), (5, 5), (5, 1), (1, 5)]
+def gen_axis_decimal(rng, n):
+    """n cells -> n + 1 increasing decimal (not binary) coordinates, origin >= 0 (an Allocation lives in the positive quadrant)."""
+    xs = [Fraction(rng.choice([0, 0, 0, 1, 3, 17]), 10)]
+    step = rng.choice([None, None, Fraction(1, 10), Fraction(3, 10)])        # uniform or not
+    for _ in range(n):
+        xs.append(xs[-1] + (step or Fraction(rng.choice([1, 1, 2, 3, 7, 11, 5, 13]), rng.choice([10, 10, 100, 20]))))
+    return xs
+
+
+STYLES = ["unit0", "int0", "frac0", "shift-int", "shift-frac", "unit0", "int0", "frac0", "shift-int", "shift-frac",
+          "tiny"]
+# the first 10 are the "small" sizes (every other case): half of them a single row or column
+SIZES = [(1, 1), (2, 1), (1, 2), (3, 1), (1, 3), (2, 2), (3, 2), (2, 3), (3, 3), (1, 4), (4, 1), (4, 2), (2, 4),
+         (4, 3), (3, 4), (4, 4), (5, 2), (2, 5), (5, 3), (3, 5), (5, 4), (4, 5), (5, 5), (5, 1), (1, 5), (3, 3),
+         (6, 1), (1, 6)]
+OCC = [Fraction(v, 4) for v in (0, 0, 1, 2, 3, 4, 4, 4, 5, 8)]     # 0, values inside (0, 1], above 1 (5/4, 2)
 
 
 def grid_cells(xs, ys, order):
@@ -95,10 +132,33 @@ def cell_costs(case):
     return [r * s - a for s, a in coefs(case)]
 
 
-def gen_case(rng, small=False):
+def make_alloc(rng, case, decimal):
+    """The case's grid is handed to the tool as an allocation (rect_io.get_alloc + select_box): per cell the ratios of
+    the modules; M is the selected one (absent = ratio 0), N a bystander."""
+    mods = []
+    absent = all(p == 0 for p in case["occ"])     # the Allocation constructor divides by a listed module's total area
+    for p in case["occ"]:
+        entry = [] if (p == 0 and (absent or rng.random() < 0.6)) else [["M", p]]
+        if rng.random() < 0.3:
+            entry.insert(rng.randrange(len(entry) + 1), ["N", Fraction(rng.choice([1, 2]), 4)])
+        mods.append(entry)
+    case["alloc"] = {"decimal": bool(decimal), "mods": mods}
+    if decimal:              # the cost arithmetic is binary64 on non-dyadic numbers: only the shape set is judged
+        case["bound"] = -10 ** 9
+
+
+def gen_case(rng, small=False, alloc=None):
+    """alloc: None (the grid is given to solve directly), False (through an allocation, dyadic numbers),
+    True (through an allocation with decimal coordinates: direct oracle only)."""
     nx, ny = rng.choice(SIZES[:10] if small else SIZES)
-    xs = gen_axis(rng, nx, rng.choice(STYLES))
-    ys = gen_axis(rng, ny, rng.choice(STYLES))
+    if alloc:
+        xs, ys = gen_axis_decimal(rng, nx), gen_axis_decimal(rng, ny)
+    else:
+        while True:
+            xs = gen_axis(rng, nx, rng.choice(STYLES))
+            ys = gen_axis(rng, ny, rng.choice(STYLES))
+            if alloc is None or (xs[0] >= 0 and ys[0] >= 0):
+                break
     n = nx * ny
     order = list(range(n))
     m = rng.random()
@@ -109,6 +169,8 @@ def gen_case(rng, small=False):
     cells = grid_cells(xs, ys, order)
     kind = "grid"
     m = rng.random()
+    if alloc is not None:
+        m = 1.0
     if m < 0.06 and n >= 2:            # a cell missing: not a full grid (correspondence only)
         del cells[rng.randrange(len(cells))]
         kind = "partial"
@@ -119,15 +181,19 @@ def gen_case(rng, small=False):
             cells.insert(rng.randrange(len(cells) + 1), [xs[0], ys[-1], xs[1], ys[-1]])
         kind = "degenerate"
     factor = rng.choice([4, 8, 16]) if n <= 12 else rng.choice([2, 4])
-    occ = [Fraction(rng.choice([0, 0, 1, 2, 3, 4, 4]), 4) for _ in cells]
+    m = rng.random()
+    if m < 0.04:                       # the module is absent from every cell (theoretical area 0)
+        occ = [Fraction(0) for _ in cells]
+    elif m < 0.07:                     # 0 / 1 occupancies only (an exactly rectilinear region or nearly)
+        occ = [Fraction(rng.choice([0, 1, 1])) for _ in cells]
+    else:
+        occ = [rng.choice(OCC) for _ in cells]
+    if alloc is not None:
+        occ = [min(p, Fraction(1)) for p in occ]          # an Allocation keeps ratios in [0, 1]
     case = {"kind": kind, "cells": cells, "occ": occ, "k": rng.choice([1, 2, 2, 3, 3]), "factor": factor,
-            "ratio": rng.choice([Fraction(2), Fraction(2), Fraction(3), Fraction(5, 2), Fraction(3, 2)]), "bound": 0,
+            "ratio": rng.choice([Fraction(2)] * 8 + [Fraction(3)] * 4 + [Fraction(5, 2)] * 4 + [Fraction(3, 2)] * 3 +
+                                [Fraction(1)]), "bound": 0,
             "history": None}
-    if all(s == 0 for s, _ in coefs(case)):
-        good = [j for j, c in enumerate(cells) if c[0] < c[2] and c[1] < c[3]]
-        case["occ"][rng.choice(good)] = Fraction(1)
-    while all(s == 0 for s, _ in coefs(case)):      # int(factor * p * w * h) == 0 everywhere: solve would divide by 0
-        case["factor"] *= 4
     cc = cell_costs(case)
     maxpos = sum(c for c in cc if c > 0)
     minneg = sum(c for c in cc if c < 0)
@@ -140,6 +206,8 @@ def gen_case(rng, small=False):
         case["bound"] = maxpos + rng.choice([0, 1])    # at most the best conceivable / unsatisfiable
     else:
         case["bound"] = rng.randint(minneg - 1, 0)
+    if alloc is not None:
+        make_alloc(rng, case, alloc)
     if rng.random() < 0.15:
         case["history"] = {"kind": "grid", "cells": grid_cells([Fraction(0), Fraction(1), Fraction(3)],
                                                                [Fraction(0), Fraction(2)], [0, 1]),
@@ -151,9 +219,51 @@ def gen_case(rng, small=False):
 # --------------------------------------------------------------------------
 # running the implementation
 # --------------------------------------------------------------------------
+def dec(q):
+    """Exact decimal literal of a Fraction whose denominator is 2^a 5^b."""
+    import decimal
+    with decimal.localcontext() as ctx:
+        ctx.prec = 120
+        d = decimal.Decimal(q.numerator) / decimal.Decimal(q.denominator)
+        assert Fraction(d) == q, q
+        return format(d, "f")
+
+
+def alloc_text(case):
+    """The allocation file of the case's grid: one rectangle [xc, yc, w, h] per cell with the ratios of its modules."""
+    rows = []
+    for (x1, y1, x2, y2), mods in zip(case["cells"], case["alloc"]["mods"]):
+        ms = ", ".join(f"{nm}: {dec(Fraction(r))}" for nm, r in mods)
+        rows.append(f"  [[{dec((x1 + x2) / 2)}, {dec((y1 + y2) / 2)}, {dec(x2 - x1)}, {dec(y2 - y1)}], {{{ms}}}]")
+    return "[\n" + ",\n".join(rows) + "\n]\n"
+
+
+def through_allocation(case):
+    """rect_io.get_alloc + select_box on the allocation of the case's grid: (ifile, input_problem)."""
+    import tools.rect.rect_io as IO
+    from frame.geometry.geometry import Rectangle
+    import os
+    import tempfile
+    Rectangle.undefine_epsilon()
+    fd, path = tempfile.mkstemp(prefix="c08-alloc-", suffix=".yaml")      # get_alloc takes a file name
+    try:
+        with os.fdopen(fd, "w") as f:
+            f.write(alloc_text(case))
+        ifile = IO.get_alloc(path)
+    finally:
+        os.unlink(path)
+    inp, _ = IO.select_box("M", ifile)
+    Rectangle.undefine_epsilon()
+    return ifile, [tuple(float(v) for v in c) for c in inp]
+
+
 def make_carrier(case):
     import tools.rect.rect as R
     cells = [(float(c[0]), float(c[1]), float(c[2]), float(c[3]), float(p)) for c, p in zip(case["cells"], case["occ"])]
+    via = None
+    if case.get("alloc"):
+        via = through_allocation(case)
+        cells = via[1]
     car = types.SimpleNamespace(input_problem=cells, selbox="M", factor=case["factor"], inibox=(0, 0, 0, 0, 0),
                                 blocks=[], prev_x={}, prev_y={}, next_x={}, next_y={}, xcoords=[], ycoords=[],
                                 theoreticalBestArea=0.0, gm=None)
@@ -164,6 +274,9 @@ def make_carrier(case):
     xs = [c[0] for c in cells] + [c[2] for c in cells]
     ys = [c[1] for c in cells] + [c[3] for c in cells]
     ifile = {"Width": max(xs) - min(xs), "Height": max(ys) - min(ys), "Rectangles": []}
+    if via:
+        ifile = via[0]
+        car.via = via
     return car, ifile
 
 
@@ -187,6 +300,8 @@ def call_solve(case):
                 ret = R.solve(car, ifile, float(case["ratio"]), (int(case["bound"]), 1), int(case["k"]))
             except KeyError:
                 ret = "KeyError"
+            except ZeroDivisionError:
+                ret = "ZeroDivisionError"
     finally:
         SM.SATManager = orig
     return car, (made[0] if made else None), ret
@@ -246,13 +361,23 @@ def run_impl(case):
     obs = {"xs": list(car.xcoords), "ys": list(car.ycoords),
            "prevx": [[k, v] for k, v in car.prev_x.items()], "nextx": [[k, v] for k, v in car.next_x.items()],
            "prevy": [[k, v] for k, v in car.prev_y.items()], "nexty": [[k, v] for k, v in car.next_y.items()],
-           "blocks": list(car.blocks), "keyerror": ret == "KeyError"}
+           "blocks": list(car.blocks), "keyerror": ret == "KeyError", "zerodiv": ret == "ZeroDivisionError",
+           "tba": int(car.theoreticalBestArea)}
+    if case.get("alloc"):
+        ifile, selected = car.via
+        obs["selected"] = [list(c) for c in selected]
+        obs["ifile"] = [[[float(v) for v in b[nm][0]["dim"]], [[k, float(v)] for m in (b[nm][1]["mod"] or []) for k, v in m.items()]]
+                        for b in ifile["Rectangles"] for nm in b]
     # the store of the history: its decision variables are "b_<n>" names as well
     obs["mem0"] = mem_nodes(mem0_raw, nmap)
     if obs["keyerror"]:
         return obs
     obs["clauses"] = [[[nmap.var(l.v), bool(l.s)] for l in c] for c in sm.clauses]
+    obs["vtable"] = [nmap.var(v) for v in sm.vtable[1:]]
+    if obs["zerodiv"]:
+        return obs
     (c1, c2), rects, quality = ret
+    obs["quality"] = float(quality)
     obs["ret"] = [int(c1), int(c2)]
     obs["sat"] = len(rects) > 0 or (c1, c2) != (0, 1)
     obs["rects"] = [None if r[0] == float("inf") else [r[0], r[1], r[2], r[3]] for r in rects]
@@ -324,18 +449,46 @@ def gmem(nodes):
     return glist(out)
 
 
+def effective(case, obs):
+    """The case whose cells are what solve was really given: select_box's output for a case that goes through an
+    allocation (exact rationals of the returned floats)."""
+    if not case.get("alloc"):
+        return case
+    sel = obs["selected"]
+    return dict(case, cells=[[Fraction(v) for v in c[:4]] for c in sel], occ=[Fraction(c[4]) for c in sel])
+
+
+def garects(obs):
+    return glist([f"(mkA {gq(d[0])} {gq(d[1])} {gq(d[2])} {gq(d[3])} "
+                  f"{glist(['(' + gstr(k) + ', ' + gq(v) + ')' for k, v in mods])})" for d, mods in obs["ifile"]])
+
+
 def to_coq(case, obs):
+    if case.get("alloc"):
+        if case["alloc"]["decimal"]:
+            return "true"      # decimal coordinates: binary64 rounding is not modelled - judged by the direct oracle only
+        pre = f"c08_select_check {gstr('M')} {garects(obs)} {gproblem(effective(case, obs))}"
+        return f"({pre}) && ({to_coq_solve(effective(case, obs), obs)})"
+    return to_coq_solve(case, obs)
+
+
+def to_coq_solve(case, obs):
+    if obs.get("zerodiv"):
+        return "false"     # the model (repaired code) returns a result on every input; solve raised ZeroDivisionError
     o = (f"(mkObs8 {glist([gq(x) for x in obs['xs']])} {glist([gq(x) for x in obs['ys']])} "
          f"{gdict(obs['prevx'])} {gdict(obs['nextx'])} {gdict(obs['prevy'])} {gdict(obs['nexty'])} "
          f"{gbool(obs['keyerror'])} ")
     if obs["keyerror"]:
-        o += "[] false [] 0%Z [])"
+        o += "[] false [] 0%Z [] [])"
     else:
         o += (f"{glist([glist([glit(l) for l in c]) for c in obs['clauses']])} {gbool(obs['sat'])} "
               f"{glist([gvar(v) for v in obs.get('true', [])])} {gz(obs['ret'][0])} "
-              f"{glist([gbox(r) for r in obs['rects']])})")
+              f"{glist([gbox(r) for r in obs['rects']])} {glist([gvar(v) for v in obs['vtable']])})")
     e = (f"c08_check Repaired {gproblem(case)} {case['k']} {gq(case['factor'])} {gq(case['ratio'])} "
          f"{gz(case['bound'])} {gmem(obs['mem0'])} {o}")
+    if not obs["keyerror"]:
+        e = (f"({e}) && c08_quality_check {gproblem(case)} {gq(case['factor'])} {gq(case['ratio'])} {gz(obs['tba'])} "
+             f"{gbool(obs['sat'])} {glist([gvar(v) for v in obs.get('true', [])])} {gq(obs['quality'])}")
     if "models" in obs and len(obs["models"]) <= 4000:
         ms = glist([glist([glist([gbool(x) for x in row]) for row in m]) for m in obs["models"]])
         e = (f"({e}) && c08_models_check {gproblem(case)} {case['k']} {gq(case['factor'])} {gq(case['ratio'])} "
@@ -435,7 +588,47 @@ def show_sigma(sig):
     return " | ".join("".join(str(int(x)) for x in row) for row in sig)
 
 
+def oracle_select(case, obs):
+    """The grid handed to the tool as an allocation must reach the search as that grid: the same cells (in the same
+    order), every column / row line one coordinate shared exactly by the cells on both sides, M's ratio per cell."""
+    g = grid_index(case)
+    if g is None:
+        return None
+    xs, ys, pos = g
+    decimal = case["alloc"]["decimal"]
+    sel = obs["selected"]
+    if len(sel) != len(case["cells"]):
+        return f"select: select_box returns {len(sel)} cells for an allocation of {len(case['cells'])} rectangles"
+    for b, (c, want, mods) in enumerate(zip(sel, case["cells"], case["alloc"]["mods"])):
+        for got, w in zip(c[:4], want):
+            tol = Fraction(1, 10 ** 8) * max(abs(w), 1) if decimal else 0
+            if abs(Fraction(got) - w) > tol:
+                return f"select: cell {b} comes out as {c[:4]} instead of {[float(v) for v in want]}"
+        ratio = dict((nm, r) for nm, r in mods).get("M", Fraction(0))
+        if Fraction(c[4]) != Fraction(float(ratio)):
+            return f"select: cell {b} has occupancy {c[4]} instead of the module's ratio {float(ratio)}"
+    eff = effective(case, obs)
+    ge = grid_index(eff)
+    exs = sorted({c[0] for c in eff["cells"]} | {c[2] for c in eff["cells"]})
+    eys = sorted({c[1] for c in eff["cells"]} | {c[3] for c in eff["cells"]})
+    if ge is None or len(exs) != len(xs) or len(eys) != len(ys):
+        near = [(float(a), float(b)) for l in (exs, eys) for a, b in zip(l, l[1:]) if b - a < Fraction(1, 10 ** 8) * max(abs(b), 1)]
+        return (f"select: the {len(xs) - 1} x {len(ys) - 1} grid of the allocation reaches the search with {len(exs)} distinct x "
+                f"and {len(eys)} distinct y coordinates instead of {len(xs)} and {len(ys)}: adjacent cells do not share "
+                f"their border coordinate exactly (e.g. {near[:2]}), so the cells are not a grid for definecoords")
+    return None
+
+
 def oracle(case, obs):
+    if case.get("alloc"):
+        why = oracle_select(case, obs)
+        if why:
+            return why
+        return oracle_solve(effective(case, obs), obs, decimal=case["alloc"]["decimal"])
+    return oracle_solve(case, obs)
+
+
+def oracle_solve(case, obs, decimal=False):
     if case["kind"] != "grid":
         return None
     g = grid_index(case)
@@ -445,6 +638,10 @@ def oracle(case, obs):
     nx, ny, n, k = len(xs) - 1, len(ys) - 1, len(case["cells"]), case["k"]
     if obs["keyerror"]:
         return "solve: KeyError on a full grid"
+    if obs.get("zerodiv"):
+        return ("solve: raised ZeroDivisionError on a full grid instead of returning a shape or (0, 1), [] "
+                f"(ratio {case['ratio']}, theoretical area {obs['tba']}: the quality it prints divides by "
+                "(ratio - 1) * theoretical area)")
     if [Fraction(x) for x in obs["xs"]] != xs or [Fraction(y) for y in obs["ys"]] != ys:
         return "coords: definecoords does not return the sorted coordinate lists of the grid"
     cc = cell_costs(case)
@@ -484,9 +681,9 @@ def oracle(case, obs):
         if isinstance(rs, str):
             return f"solve: the model behind the returned rectangles [{show_sigma(sig)}] is not a shape: {rs}"
         cost = cost_of_sigma(sig, cc)
-        if cost < bound:
+        if cost < bound and not decimal:
             return f"solve: returned shape [{show_sigma(sig)}] has cost {cost} below the bound {bound}"
-        if obs["ret"] != [cost + 1, 1]:
+        if obs["ret"] != [cost + 1, 1] and not decimal:      # decimal: the code's binary64 area products may truncate differently
             return f"solve: returned cost pair {obs['ret']} but the shape's cost is {cost} (expected [{cost + 1}, 1])"
         want = [[xs[r[0]], ys[r[2]], xs[r[1] + 1], ys[r[3] + 1]] for r in rs]
         got = [None if r is None else [Fraction(v) for v in r] for r in obs["rects"]]
@@ -515,6 +712,10 @@ def origin_zero_integral(case):
 
 def failure_key(case, why):
     head = (why or "").split(":")[0]
+    if "ZeroDivisionError" in (why or ""):
+        return "C08/quality-zero-division"
+    if head == "select":
+        return "C08/select-box-shared-borders"
     if head in ("models", "solve") and case.get("kind") == "grid" and not origin_zero_integral(case) \
             and case.get("k", 1) >= 2:
         return "C08/border-tests"          # F10: only grids with a shifted origin or a fractional extent
@@ -524,23 +725,36 @@ def failure_key(case, why):
 # --------------------------------------------------------------------------
 # shrinking: smaller grids, fewer boxes, plainer numbers
 # --------------------------------------------------------------------------
-def in_domain(case):
-    """solve divides by (ratio - 1) * theoreticalBestArea: keep shrunk cases where that is not zero."""
-    return case["ratio"] > 1 and any(s > 0 for s, _ in coefs(case))
-
-
 def rebuild(case, xs, ys):
     nx, ny = len(xs) - 1, len(ys) - 1
     cells = grid_cells(xs, ys, list(range(nx * ny)))
-    c = dict(case, cells=cells, occ=[Fraction(1)] * len(cells), history=None)
-    while not any(s > 0 for s, _ in coefs(c)):
-        c["factor"] *= 4
+    p = Fraction(0) if all(q == 0 for q in case["occ"]) else Fraction(1)     # keep "the module is absent"
+    c = dict(case, cells=cells, occ=[p] * len(cells), history=None)
+    if case.get("alloc"):
+        c["alloc"] = dict(case["alloc"], mods=[[["M", p]] for _ in cells])
     return c
 
 
+_KEY = {}
+
+
+def _key_of(case):
+    """The failure class of a case (None if it does not fail): shrinking must not drift into another finding."""
+    h = repr(fr.tojson(case))
+    if h not in _KEY:
+        try:
+            obs = run_impl(case)
+            why = oracle(case, obs)
+        except Exception as e:
+            why = f"implementation raised {type(e).__name__}: {e}"
+        _KEY[h] = failure_key(case, why) if why else None
+    return _KEY[h]
+
+
 def shrink(case):
+    want = _key_of(case)
     for c in shrink_all(case):
-        if in_domain(c):
+        if want is None or _key_of(c) == want:
             yield c
 
 
@@ -550,7 +764,7 @@ def shrink_all(case):
     g = grid_index(case) if case["kind"] == "grid" else None
     cc = cell_costs(case)
     low = sum(c for c in cc if c < 0) - 5
-    if case["bound"] != low:
+    if case["bound"] != low and not (case.get("alloc") and case["alloc"]["decimal"]):
         yield dict(case, bound=low)
     if g:
         xs, ys, pos = g
@@ -562,8 +776,9 @@ def shrink_all(case):
             if len(ys) > 2:
                 c = rebuild(case, xs, ys[:i] + ys[i + 1:])
                 yield dict(c, bound=-10 ** 6)
-        if list(pos.values()) != sorted(pos.values()) or any(p != 1 for p in case["occ"]):
-            yield dict(rebuild(case, xs, ys), bound=-10 ** 6)
+        rb = rebuild(case, xs, ys)
+        if rb["cells"] != case["cells"] or rb["occ"] != case["occ"]:
+            yield dict(rb, bound=-10 ** 6)
     if case["k"] > 1:
         yield dict(case, k=case["k"] - 1)
     if case["ratio"] != 2:
@@ -579,26 +794,35 @@ def nontrivial(case):
 
 def dist_key(case):
     n = len(case["cells"])
-    return f"{case['kind']}/k{case['k']}/" + ("<=4" if n <= 4 else "<=9" if n <= 9 else "<=16" if n <= 16 else "<=25")
+    kind = case["kind"] if not case.get("alloc") else ("alloc-decimal" if case["alloc"]["decimal"] else "alloc-dyadic")
+    return f"{kind}/k{case['k']}/" + ("<=4" if n <= 4 else "<=9" if n <= 9 else "<=16" if n <= 16 else "<=25")
 
 
 def run(ctx, out, replay=None):
     n = 500 if ctx.quick() else 7000
-    out.rule = ("full grids of 1x1 .. 5x5 cells on strictly increasing dyadic coordinate lists (unit, integer "
-                "non-uniform, fractional extent, shifted integer / fractional / negative origin, independently per "
-                "axis), cells listed row-major, column-major or shuffled, k 1..3, occupancies in quarters, factor "
-                "2..16, ratio 2, 3, 2.5, 1.5, bounds from trivially met to unsatisfiable; 6% grids with a missing "
-                "cell and 3% with a degenerate cell (KeyError) for the correspondence only; 15% after an earlier "
-                "solve in the same process; for <= 9 cells every model of the solver's formula projected on the cell "
-                "variables is enumerated with PySAT and compared with the independent enumeration of shapes meeting "
-                "the bound; non-trivial = full grid with >= 3 cells and k >= 2; distinct by hash")
+    out.rule = ("full grids of 1x1 .. 5x5 (and 6x1, 1x6) cells on strictly increasing dyadic coordinate lists (unit, "
+                "integer non-uniform, fractional extent, shifted integer / fractional / negative origin, cells so small "
+                "that the integer areas vanish - independently per axis); half of the cases from the ten smallest sizes, "
+                "five of which are a single row or column; cells listed row-major, column-major or shuffled; k 1..3; "
+                "occupancies 0, quarters up to 1, 5/4 and 2 (4% all zero, 3% only 0/1); factor 2..16; ratio 2, 3, 2.5, "
+                "1.5 and (1 in 20) 1; bounds from trivially met to unsatisfiable; 6% grids with a missing cell and 3% with "
+                "a degenerate cell (KeyError) for the correspondence only; 15% after an earlier solve in the same process; "
+                "every 8th case reaches the search through a real Allocation, rect_io.get_alloc and select_box - "
+                "alternately with dyadic numbers (select_box compared with the model exactly) and with decimal "
+                "coordinates (tenths, hundredths, twentieths; uniform or not; direct oracle only); for <= 9 cells every "
+                "model of the solver's formula projected on the cell variables is enumerated with PySAT and compared "
+                "with the independent enumeration of shapes meeting the bound; the variable table (registration "
+                "order) is compared as well; non-trivial = full grid with >= 3 cells and k >= 2; distinct by hash")
     cases = []
     if replay and "case" in replay:
         cases.append(fr.unjson(replay["case"]))
     cases += fr.load_corpus("C08")
     while len(cases) < n:
-        cases.append(gen_case(ctx.rng, small=(len(cases) % 2 == 0)))
-    stats = {"sat": 0, "unsat": 0, "keyerror": 0, "enumerated_instances": 0, "models_enumerated": 0,
+        j = len(cases)
+        # every 8th case reaches the search through an allocation (get_alloc + select_box), alternately with
+        # dyadic numbers (compared with the model exactly) and decimal ones (direct oracle)
+        cases.append(gen_case(ctx.rng, small=(j % 2 == 0), alloc=(None if j % 8 != 5 else (j % 16 == 5))))
+    stats = {"sat": 0, "unsat": 0, "keyerror": 0, "zerodiv": 0, "zero_quality_denominator": 0, "enumerated_instances": 0, "models_enumerated": 0,
              "max_clauses": 0, "with_diagram": 0}
 
     def run_counted(case):
@@ -606,6 +830,11 @@ def run(ctx, out, replay=None):
         if obs["keyerror"]:
             stats["keyerror"] += 1
             return obs
+        if obs.get("zerodiv"):
+            stats["zerodiv"] += 1
+            return obs
+        if obs["tba"] == 0 or case["ratio"] == 1:
+            stats["zero_quality_denominator"] += 1
         stats["sat" if obs["sat"] else "unsat"] += 1
         stats["max_clauses"] = max(stats["max_clauses"], len(obs["clauses"]))
         if any(l[0][0] == "R" and l[0][1] >= 2 for c in obs["clauses"] for l in c):
